@@ -2,7 +2,8 @@
 
 ttl.rs            MAX_HOPS_ACCEPTABLE, the `ttl > N { M.saturating_sub(ttl) }` bands of guess_distance
 window_size.rs    MIN_TCP4/6, ETH_MTU, TS_SIZE, MAX_MULTIPLIER, `modulos`, the `mss < N` guard
-tcp_process.rs    IP_TOS_CE/ECT, IP4_MBZ, the `shift > N` guard, the port heuristic bound, option-kind arms
+tcp_process.rs    IP_TOS_CE/ECT, IP4_MBZ, the `shift > N` guard, the port heuristic bound, option-kind arms,
+                  the size table of options_malformed and the place of the `bad` push
 mtu.rs            the `> 20` / `saturating_sub(20)` / `saturating_mul(4)` literals (both functions)
 ip_options.rs     `ihl > 5`, `saturating_sub(5)`, `saturating_mul(4)`
 p0f.fp            the [mtu] section as (label, [values]) in file order
@@ -106,6 +107,23 @@ def run(repo, gen_dir):
     defs.append("/-- `(option kind number, variant name)` of the named arms of the option `match` -/")
     defs.append("def optionArms : List (Nat × String) := [" +
                 ", ".join(f'({pn.get(a, 999)}, "{b}")' for a, b in arms) + "]")
+    # options_malformed: the size each fixed-format option must have (`MSS => len == 4`, `SACK => matches!(len, 10 | ..)`),
+    # the minimum for every other kind (`_ => len >= 2`), and where visit_tcp pushes the quirk (after the option loop)
+    om = fn_body(tp, "options_malformed") or ""
+    sizes = []
+    for name, rhs in re.findall(r"\b([A-Z_]+)\s*=>\s*(len\s*==\s*\d+|matches!\(len,[^)]*\))\s*,", om):
+        sizes.append((pn.get(name, 999), [int(x) for x in re.findall(r"\d+", rhs)]))
+    mn = re.search(r"_\s*=>\s*len\s*>=\s*(\d+)", om)
+    shape = all(x in om for x in ["EOL => return false", "NOP => buf = rest", "rest.first()", "buf.get(len..)"])
+    item("tcp_process.rs options_malformed size table", sizes if (sizes and mn and shape) else None)
+    defs.append("/-- `(option kind, admissible values of the length byte)` of `options_malformed` -/")
+    defs.append("def optionSizes : List (Nat × List Nat) := [" +
+                ", ".join("(%d, [%s])" % (k, ", ".join(map(str, v))) for k, v in sizes) + "]")
+    defs.append(f"def optionMinLen : Nat := {mn.group(1) if mn else 0}")
+    loop_end = vt.find("olayout.push(TcpOption::Unknown")
+    push = vt.find("if options_malformed(tcp.get_options_raw()) {\n        quirks.push(Quirk::OptBad);")
+    item("tcp_process.rs bad quirk pushed once, after the option loop",
+         True if (loop_end >= 0 and push > loop_end and vt.count("Quirk::OptBad") == 1) else None)
     # quirk conditions use these pnet flag constants; record the flag masks used by is_valid / roles
     flags_ok = all(x in tp for x in ["tcp_flags & SYN != 0 && tcp_flags & ACK == 0",
                                      "tcp_flags & SYN != 0 && tcp_flags & ACK != 0"])
